@@ -737,9 +737,18 @@ package sizes
 //@   ensures result == nil && !parseBoolK(keyof(s)) ==> same(*v.threshold, 1.0)
 //@   ensures result != nil ==> same(*v.threshold, old(*v.threshold))
 
+// The boolean threshold options (--verbose, --no-verbose, --critical) carry
+// the threshold they stand for: the value made here writes exactly `value`
+// through exactly `threshold` when the option is given (C14: "--verbose and
+// --threshold=0, --critical and --threshold=30").
+//@ func NewThresholdFlagValue
+//@   pure
+//@   ensures dyntype(result, "*sizes.thresholdFlagValue") && fresh(unbox(result, "*sizes.thresholdFlagValue"))
+//@   ensures unbox(result, "*sizes.thresholdFlagValue").threshold == threshold && same(unbox(result, "*sizes.thresholdFlagValue").value, value) && !unbox(result, "*sizes.thresholdFlagValue").b
+
 //@ lemma last_wins: forall a, b, c float64 :: same(ite(true, b, a), ite(true, b, c))
 
-//@ property C14: (*Threshold).Set (*thresholdFlagValue).Set (*NameStyle).Set lemma/last_wins
+//@ property C14: (*Threshold).Set (*thresholdFlagValue).Set (*NameStyle).Set NewThresholdFlagValue lemma/last_wins
 //@ property C11: (*Threshold).Set
 
 //@ property C08: (*Path).BestPath (*Path).Path (*Path).TreePrefix (*Path).String setPath (*HistorySize).recordBlob (*HistorySize).recordTree (*HistorySize).recordCommit (*HistorySize).recordTag (*item).Footnote
